@@ -221,6 +221,20 @@ CHECKS["C08"] = dict(
     ref="§4 C08",
     note=COMMON_NOTE + " Trusted additionally: the translator (introspection + ast in a fresh interpreter, fail-closed); ASE's JSON codec.")
 
+CHECKS["C07"] = dict(
+    technique="Coq proof (Model/Restart.v, Model/Serial.v, Proofs/RestartProofs.v, Proofs/SerialProofs.v, Props/C07.v) + translator-regenerated "
+              "simulation / component schemas with finite obligations by vm_compute + the property verbatim on real restart files: every step of "
+              "every generated run is a restart point",
+    text="Theorems: for any step function that reads the state only through its step-relevant projection, any restart point k and any "
+         "number of further steps, a file that restores the projection gives a run that agrees with the uninterrupted one (induction); "
+         "the move table's components are restored exactly at any nesting depth (generic round trip); regenerated obligations: every "
+         "simulation class implementing the restart interface writes the atoms, everything its constructor needs, nothing it refuses and "
+         "every setting it owns, and is registered; every component class satisfies class_ok. Open finding: ForceBias offers "
+         "restart_file but does not implement the interface.",
+    ref="§4 C07",
+    note=COMMON_NOTE + " The hypothesis that a step depends only on the projection (no hidden global state) is what C06's tie establishes. "
+         "Trusted additionally: the translator; ASE's JSON codec.")
+
 NA_REASON = "check not built yet in this round (see DESIGN.md §8 order of construction); no weaker technique substituted"
 
 
